@@ -502,7 +502,9 @@ pub fn run(rep: &mut Report) {
             }
         }
     }
-    rep.evaluations += evals;
+    // evaluations = judged groups of calls (add + subtract, the difference laws, the day clauses, the relative-duration
+    // clauses), not receivers
+    rep.evaluations += evals + rep.get("add/evaluated") + rep.get("diff/laws_evaluated") + rep.get("duration_relative/evaluated");
     rep.add("cases", evals);
     for c in ["cases", "add/evaluated", "diff/laws_evaluated", "diff/straddle+reversed", "duration_relative/evaluated", "day/whole-hour-odd-day"] {
         rep.require(c);
